@@ -377,7 +377,7 @@ def t_matrix(rng, gid, configured=None, theme=False):
 
 def t_simitem(rng, gid, configured=None, tag=True):
     configured = maybe(rng, 0.4) if configured is None else configured
-    cfg = {'name': gid + '.sim', 'tag': tag, 'shared': maybe(rng, 0.25),
+    cfg = {'name': gid + '.sim', 'tag': tag, 'shared': maybe(rng, 0.4),
            'table': {'a': {'a': 1, 'A': 0.5, 'b': 0}, 'b': {'b': 1, 'a': 0.25}, 'c': {'c': 1, 'C': 1.0 / 3}}}
     common_opts(rng, cfg)
     if configured:
@@ -401,7 +401,7 @@ def _sub_for_list(rng, gid, allow_ref=None):
     if r < 0.7:
         name = gid + '.sub'
         sub = {'__grader__': {'cls': 'SimItemGrader',
-                              'cfg': {'name': name, 'shared': maybe(rng, 0.25),
+                              'cfg': {'name': name, 'shared': maybe(rng, 0.45),
                                       'table': {'a': {'a': 1, 'A': 0.5}, 'b': {'b': 1, 'B': 0.25},
                                                 'c': {'c': 1, 'C': 1.0 / 3}, 'd': {'d': 1, 'a': 0.1}}}}}
         return (sub, {'right': ['a', 'b', 'c', 'd'], 'wrong': ['x', 'A', 'B', 'C'], 'bad': []},
@@ -587,7 +587,7 @@ def t_list(rng, gid, shared=None):
             cfg['answers'] = [T(rights[0], {'expect': items['wrong'][0], 'grade_decimal': 0.5, 'msg': 'half'})] + rights[1:]
         else:
             cfg['answers'] = T(list(rights), list(reversed(rights)) if n > 2 else [rights[1], rights[0]])
-        if maybe(rng, 0.25):
+        if maybe(rng, 0.4):
             cfg['partial_credit'] = False
         right = list(rights)
         pal = {'right': [right, list(reversed(right))],
